@@ -45,7 +45,7 @@ func loadWorld(repo string) (*World, error) {
 	}
 	nerr := 0
 	packages.Visit(pkgs, nil, func(p *packages.Package) {
-		if strings.HasPrefix(p.PkgPath, modPath) {
+		if isModPath(p.PkgPath) {
 			for _, e := range p.Errors {
 				fmt.Fprintln(os.Stderr, "load error:", e)
 				nerr++
@@ -64,7 +64,7 @@ func loadWorld(repo string) (*World, error) {
 	w.Files = map[*types.Package][]*ast.File{}
 	w.Alias = map[*types.Package]map[string]*types.Package{}
 	packages.Visit(pkgs, nil, func(p *packages.Package) {
-		if !strings.HasPrefix(p.PkgPath, modPath) || p.Types == nil {
+		if !isModPath(p.PkgPath) || p.Types == nil {
 			return
 		}
 		w.Files[p.Types] = p.Syntax
@@ -89,12 +89,12 @@ func loadWorld(repo string) (*World, error) {
 		if sp == nil {
 			continue
 		}
-		if strings.HasPrefix(sp.Pkg.Path(), modPath) {
+		if isModPath(sp.Pkg.Path()) {
 			w.SPkgs[sp.Pkg.Name()] = sp
 		}
 	}
 	for fn := range ssautil.AllFunctions(prog) {
-		if fn.Pkg == nil || !strings.HasPrefix(fn.Pkg.Pkg.Path(), modPath) {
+		if fn.Pkg == nil || !isModPath(fn.Pkg.Pkg.Path()) {
 			continue
 		}
 		if fn.Synthetic != "" && fn.Parent() == nil && !strings.HasPrefix(fn.Synthetic, "package init") {
@@ -157,4 +157,10 @@ func (w *World) pos(p token.Pos) string {
 		f = strings.TrimPrefix(f[len(w.Repo):], "/")
 	}
 	return fmt.Sprintf("%s:%d", f, ps.Line)
+}
+
+// isModPath: the package path belongs to the module under verification (path-boundary aware:
+// github.com/liftbridge-io/liftbridge-api/... is a different module).
+func isModPath(p string) bool {
+	return p == modPath || strings.HasPrefix(p, modPath+"/")
 }
